@@ -12,6 +12,8 @@ import (
 	"strings"
 	"time"
 
+	rt "github.com/arnodel/golua/runtime"
+
 	"verif/engine/core"
 	"verif/engine/host"
 )
@@ -135,6 +137,8 @@ type editCase struct {
 
 const editCPU, editMem = 100000, 10000000
 
+var compileShared *host.Machine
+
 func editFamilies(tier string) []*core.Family {
 	type seedInfo struct {
 		toks []string
@@ -184,6 +188,19 @@ func editFamilies(tier string) []*core.Family {
 			if !ok {
 				return runRes{Status: "skip"}
 			}
+			// Most mutants do not compile: find that out on a shared runtime
+			// (compiling executes nothing) and pay for a fresh runtime only
+			// when there is something to run.
+			if compileShared == nil {
+				compileShared = host.NewMachine(false)
+			}
+			cm := compileShared
+			compileShared = nil // a Go panic below must not leave a half-broken runtime behind
+			if _, err := cm.R.CompileAndLoadLuaChunk("chunk", []byte(src), rt.TableValue(cm.R.GlobalEnv())); err != nil {
+				compileShared = cm
+				return runRes{Status: "compile", Err: err.Error()}
+			}
+			compileShared = cm
 			return fromObs(host.Run(src, host.Opts{CPU: editCPU, Mem: editMem}))
 		}
 		return &core.Family{
